@@ -1,6 +1,111 @@
-//! ecm operations (stub; filled in by the area owner).
+//! C01: ECM (sequential and batched), the two work-stack drivers.
 use crate::term::*;
+use num::BigInt;
+use rust_number_theory::ecm::verif as seq;
+use rust_number_theory::ecm::ECMConfig;
+use rust_number_theory::ecm_parallel::verif as par;
+use rust_number_theory::{ecm, ecm_parallel, verif_hooks};
+use std::panic::{catch_unwind, AssertUnwindSafe};
 
-pub fn dispatch(_op: &str, _a: &[Term]) -> Option<Term> {
-    None
+type P3 = (BigInt, BigInt, BigInt);
+
+fn p3(t: &Term) -> P3 {
+    let l = t.list();
+    (l[0].int(), l[1].int(), l[2].int())
+}
+fn tp3(p: &P3) -> Term {
+    tl(vec![tb(&p.0), tb(&p.1), tb(&p.2)])
+}
+fn tres_pt(r: Result<P3, BigInt>) -> Term {
+    match r {
+        Ok(p) => tl(vec![tid("ok"), tp3(&p)]),
+        Err(g) => tl(vec![tid("err"), tb(&g)]),
+    }
+}
+fn tres_pts(r: Result<Vec<P3>, BigInt>) -> Term {
+    match r {
+        Ok(v) => tl(vec![tid("ok"), tl(v.iter().map(tp3).collect())]),
+        Err(g) => tl(vec![tid("err"), tb(&g)]),
+    }
+}
+fn tres_unit(r: Result<(), BigInt>) -> Term {
+    match r {
+        Ok(()) => tl(vec![tid("ok")]),
+        Err(g) => tl(vec![tid("err"), tb(&g)]),
+    }
+}
+fn tfac(v: &[(BigInt, u64)]) -> Term {
+    tl(v.iter().map(|(p, e)| tl(vec![tb(p), ti(*e)])).collect())
+}
+
+/// Runs a randomised operation under the scripted generator; the answer carries the bytes drawn,
+/// also when the library panics: [ret value log] | [panic class log].
+fn with_log<F: FnOnce() -> Term>(seed: u64, script: Vec<u8>, f: F) -> Term {
+    verif_hooks::install(seed, script);
+    match catch_unwind(AssertUnwindSafe(f)) {
+        Ok(t) => tl(vec![tid("ret"), t, tbytes(&verif_hooks::take_log())]),
+        Err(_) => {
+            let msg = crate::LAST_PANIC.with(|p| p.borrow().clone());
+            tl(vec![tid("panic"), tid(crate::classify(&msg)), tbytes(&verif_hooks::take_log())])
+        }
+    }
+}
+
+pub fn dispatch(op: &str, a: &[Term]) -> Option<Term> {
+    Some(match op {
+        // point_add p q a n -> [ok [x y z]] | [err g]
+        "point_add" => tres_pt(seq::point_add(&p3(&a[0]), &p3(&a[1]), &a[2].int(), &a[3].int())),
+        // point_mul p e a n
+        "point_mul" => tres_pt(seq::point_mul(&p3(&a[0]), a[1].int(), &a[2].int(), &a[3].int())),
+        // point_simplify p a n
+        "point_simplify" => tres_pt(seq::point_simplify(&p3(&a[0]), &a[1].int(), &a[2].int())),
+        // ecm_oneshot p a n b1 b2 [mode] -> [ok] | [err g]
+        "ecm_oneshot" => tres_unit(seq::ecm_oneshot(&p3(&a[0]), &a[1].int(), &a[2].int(), a[3].u64(), a[4].u64())),
+        // many_adds [[p q a]...] n
+        "many_adds" => {
+            let v: Vec<(P3, P3, BigInt)> = a[0].list().iter().map(|t| { let l = t.list(); (p3(&l[0]), p3(&l[1]), l[2].int()) }).collect();
+            tres_pts(par::many_adds(&v, &a[1].int()))
+        }
+        // many_muls [[p a]...] e n
+        "many_muls" => {
+            let v: Vec<(P3, BigInt)> = a[0].list().iter().map(|t| { let l = t.list(); (p3(&l[0]), l[1].int()) }).collect();
+            tres_pts(par::many_muls(&v, a[1].int(), &a[2].int()))
+        }
+        // many_simplify [p...] n
+        "many_simplify" => {
+            let v: Vec<P3> = a[0].list().iter().map(p3).collect();
+            tres_pts(par::many_simplify(&v, &a[1].int()))
+        }
+        // ecm_oneshot_parallel [[p a]...] n b1 b2 [mode]
+        "ecm_oneshot_parallel" => {
+            let v: Vec<(P3, BigInt)> = a[0].list().iter().map(|t| { let l = t.list(); (p3(&l[0]), l[1].int()) }).collect();
+            tres_unit(par::ecm_oneshot_parallel(&v, &a[1].int(), a[2].u64(), a[3].u64()))
+        }
+        // the expression of ecm_parallel.rs:73 on the value b1
+        "par_count" => ti((a[0].u64() as f64).sqrt() as usize as u64),
+        "select_b" => ti(seq::select_b(&a[0].int())),
+        // ecm n b1 b2 seed script -> [ret [fac count] log] | [panic class log]
+        "ecm" | "ecm_par" => {
+            let n = a[0].int();
+            let (b1, b2) = (a[1].u64(), a[2].u64());
+            let par = op == "ecm_par";
+            with_log(a[3].u64(), a[4].bytes(), move || {
+                let conf = ECMConfig { b1, b2, verbose: false };
+                let (fac, count) = if par { ecm_parallel::ecm(&n, conf) } else { ecm::ecm(&n, conf) };
+                tl(vec![tb(&fac), ti(count)])
+            })
+        }
+        // ecm_factorize n seed script -> [ret [[[p e]...] b1 count] log] | [panic class log]
+        "ecm_factorize" | "ecmpar_factorize" => {
+            let n = a[0].int();
+            let par = op == "ecmpar_factorize";
+            with_log(a[1].u64(), a[2].bytes(), move || {
+                // B1 as the driver computes it; x <= 0 panics in the driver before select_b is reached
+                let b1 = if n > BigInt::from(0) { seq::select_b(&n) } else { 0 };
+                let (l, st) = if par { ecm_parallel::factorize_verbose(&n, false) } else { ecm::factorize_verbose(&n, false) };
+                tl(vec![tfac(&l), ti(b1), ti(st.curve_count)])
+            })
+        }
+        _ => return None,
+    })
 }
